@@ -4,7 +4,7 @@ import json, os, sys
 V = os.path.dirname(os.path.dirname(os.path.abspath(__file__)))
 props = [json.loads(l) for l in open(os.path.join(V, "properties.jsonl"))]
 
-HOOK_COMMITS = ["8e07e59"]
+HOOK_COMMITS = ["8e07e59", "c4fd81d"]
 
 CHECKS = {}
 
@@ -172,6 +172,16 @@ check("C16", "model_checking",
       "listing and executed instructions (hook H1, all depths) hold no disabled class, that identifier-shaped family spellings load as identifiers, and that Config is unchanged after the run.",
       "Trusted: the classification of opcodes into gated classes, the textual recognition of macro lines, TLC. Spellings beyond the alphabet/length are sampled through the corpus/generator only.",
       "TLA+ machine model-checked by TLC + replay of all bounded TLC behaviours on the real VM + TLC trace validation of recorded parses/runs", "DESIGN.md section 4 C16")
+
+check("C17", "model_checking",
+      "spec/Ext.tla is the custom dice protocol (one pending slot, speculative matcher runs at any position, Prepare/Consume/Commit for operands of the final parse, "
+      "Exec -> exactly one handler call with copied groups, copied result); TLC checks CodeFaithful, InvokeOncePerExec and UsedByCopy on all bounded behaviours and shows "
+      "that CodeFaithful fails without the offset check.  The same statements are checked by TLC (Trace_Host c17p) on recorded runs of generated programs whose operands "
+      "are matching regex/stream syntaxes in every kind of operand position: compiled operands = written operands (text, groups, payload), dispatches (hook H1) and handler "
+      "calls alternate with pristine groups, evaluation counts, value = the program with the values written out, nothing changes when the handler later mutates what it returned. "
+      "Transparency (c17t): histories of corpus/generated programs on a plain and an identically seeded VM with never-acting parsers, pass-through hooks and identity rewriters give identical outcomes.",
+      "Trusted: the harness's extension implementations and expected evaluation counts, value projection, TLC. Programs are sampled.",
+      "TLA+ protocol model checked by TLC + TLC trace validation of recorded handler/dispatch events and paired runs", "DESIGN.md section 4 C17")
 
 NOT_YET = "check under construction in this build phase (planned in DESIGN.md section 4); not yet claimed"
 
